@@ -8,6 +8,7 @@
 *******************************************************************************/
 
 #include "clipper2/clipper.engine.h"
+#include "clipper2/clipper.verif.h"
 #include "clipper2/clipper.h"
 #include <stdexcept>
 
@@ -1285,11 +1286,13 @@ namespace Clipper2Lib {
             CheckJoinLeft(*left_bound, left_bound->bot);
         }
 
+        CLIPPER2_VERIF_AEL(verif::kInsertPair, this, left_bound);
         while (right_bound->next_in_ael &&
           IsValidAelOrder(*right_bound->next_in_ael, *right_bound))
         {
           IntersectEdges(*right_bound, *right_bound->next_in_ael, right_bound->bot);
           SwapPositionsInAEL(*right_bound, *right_bound->next_in_ael);
+          CLIPPER2_VERIF_AEL(verif::kIntersect, this, &(*right_bound));
         }
 
         if (IsHorizontal(*right_bound))
@@ -1304,6 +1307,7 @@ namespace Clipper2Lib {
       {
         StartOpenPath(*left_bound, left_bound->bot);
       }
+      if (!right_bound) CLIPPER2_VERIF_AEL(verif::kInsertOne, this, left_bound);
 
       if (IsHorizontal(*left_bound))
         PushHorz(*left_bound);
@@ -2472,6 +2476,7 @@ namespace Clipper2Lib {
       IntersectNode& node = *node_iter;
       IntersectEdges(*node.edge1, *node.edge2, node.pt);
       SwapPositionsInAEL(*node.edge1, *node.edge2);
+      CLIPPER2_VERIF_AEL(verif::kIntersect, this, &(*node.edge1));
 
       node.edge1->curr_x = node.pt.x;
       node.edge2->curr_x = node.pt.x;
@@ -2607,8 +2612,10 @@ namespace Clipper2Lib {
             else
               AddLocalMaxPoly(*e, horz, horz.top);
           }
+          CLIPPER2_VERIF_AEL(verif::kRemovePair, this, is_left_to_right ? &horz : e);
           DeleteFromAEL(*e);
           DeleteFromAEL(horz);
+          CLIPPER2_VERIF_AEL(verif::kSnapshot, this, nullptr);
           return;
         }
 
@@ -2649,6 +2656,7 @@ namespace Clipper2Lib {
         {
           IntersectEdges(horz, *e, pt);
           SwapPositionsInAEL(horz, *e);
+          CLIPPER2_VERIF_AEL(verif::kIntersect, this, &(horz));
           CheckJoinLeft(*e, pt);
           horz.curr_x = e->curr_x;
           e = horz.next_in_ael;
@@ -2657,6 +2665,7 @@ namespace Clipper2Lib {
         {
           IntersectEdges(*e, horz, pt);
           SwapPositionsInAEL(*e, horz);
+          CLIPPER2_VERIF_AEL(verif::kIntersect, this, &(*e));
           CheckJoinRight(*e, pt);
           horz.curr_x = e->curr_x;
           e = horz.prev_in_ael;
@@ -2682,7 +2691,9 @@ namespace Clipper2Lib {
             horz.outrec->back_edge = nullptr;
           horz.outrec = nullptr;
         }
+        CLIPPER2_VERIF_AEL(verif::kRemoveOne, this, &horz);
         DeleteFromAEL(horz);
+        CLIPPER2_VERIF_AEL(verif::kSnapshot, this, nullptr);
         return;
       }
       else if (NextVertex(horz)->pt.y != horz.top.y)
@@ -2756,7 +2767,9 @@ namespace Clipper2Lib {
             e.outrec->back_edge = nullptr;
           e.outrec = nullptr;
         }
+        CLIPPER2_VERIF_AEL(verif::kRemoveOne, this, &e);
         DeleteFromAEL(e);
+        CLIPPER2_VERIF_AEL(verif::kSnapshot, this, nullptr);
       }
       return next_e;
     }
@@ -2773,6 +2786,7 @@ namespace Clipper2Lib {
     {
       IntersectEdges(e, *next_e, e.top);
       SwapPositionsInAEL(e, *next_e);
+      CLIPPER2_VERIF_AEL(verif::kIntersect, this, &(e));
       next_e = e.next_in_ael;
     }
 
@@ -2780,8 +2794,10 @@ namespace Clipper2Lib {
     {
       if (IsHotEdge(e))
         AddLocalMaxPoly(e, *max_pair, e.top);
+      CLIPPER2_VERIF_AEL(verif::kRemovePair, this, &e);
       DeleteFromAEL(*max_pair);
       DeleteFromAEL(e);
+      CLIPPER2_VERIF_AEL(verif::kSnapshot, this, nullptr);
       return (prev_e ? prev_e->next_in_ael : actives_);
     }
 
@@ -2789,8 +2805,10 @@ namespace Clipper2Lib {
     if (IsHotEdge(e))
       AddLocalMaxPoly(e, *max_pair, e.top);
 
+    CLIPPER2_VERIF_AEL(verif::kRemovePair, this, &e);
     DeleteFromAEL(e);
     DeleteFromAEL(*max_pair);
+    CLIPPER2_VERIF_AEL(verif::kSnapshot, this, nullptr);
     return (prev_e ? prev_e->next_in_ael : actives_);
   }
 
